@@ -2,7 +2,10 @@
    lock protocol of the REPAIRED sources: LockFile::acquire no longer truncates LOCK before it owns
    the lock (finding F19, fix e1df165) and the sub-directories are created only after the lock is held
    (finding F27, fix 1e26351), and a Tree dropped on a thread outside any tokio runtime closes the store
-   itself before drop() returns (finding F28).  `current` is generated from the sources;
+   itself before drop() returns (finding F28).  The lock is an flock on the inode that the NAME <dir>/LOCK denotes:
+   the operations of a live store that rewrite its directory (create_checkpoint, restore_from_checkpoint) are
+   part of the model, and the restore of the sources removes and re-creates only the named data sub-directories
+   (flag restore_keeps_lock_name, generated from src/checkpoint.rs).  `current` is generated from the sources;
    C19_model_is_the_repaired_code stops checking as soon as the sources change variant.  Proofs by `exact`. *)
 From Coq Require Import List Bool Arith.
 From SKV Require Import Misc.Lock Misc.LockSpec Misc.Lock_proofs Misc.LockInst.
@@ -13,35 +16,35 @@ Proof. reflexivity. Qed.
 
 (* never two holders, for every interleaving of any number of openers/processes *)
 Theorem C19_mutual_exclusion : mutual_exclusion_stmt current.
-Proof. exact (mutual_exclusion current). Qed.
+Proof. exact (mutual_exclusion current eq_refl). Qed.
 Theorem C19_holder_is_flock_owner : holder_is_flock_owner_stmt current.
-Proof. exact (holder_is_flock_owner current). Qed.
+Proof. exact (holder_is_flock_owner current eq_refl). Qed.
 
 (* after close / drop inside a runtime / death of the holder's process the next open succeeds;
    more generally an open succeeds iff nobody owns the lock *)
 Theorem C19_release_reopens : release_reopens_stmt current.
-Proof. exact (release_reopens current). Qed.
+Proof. exact (release_reopens current eq_refl). Qed.
 Theorem C19_free_open_succeeds : free_open_succeeds_stmt current.
-Proof. exact (free_open_succeeds current). Qed.
+Proof. exact (free_open_succeeds current eq_refl). Qed.
 Theorem C19_held_open_refused : held_open_refused_stmt current.
 Proof. exact (held_open_refused current). Qed.
 
 (* no recovery (or other store-file) event of an opener precedes its lock grant or follows its release *)
 Theorem C19_lock_before_recovery : lock_before_recovery_stmt current.
-Proof. exact (lock_before_recovery current). Qed.
+Proof. exact (lock_before_recovery current eq_refl). Qed.
 Theorem C19_data_inside_lock : data_inside_lock_stmt current.
-Proof. exact (data_inside_lock current). Qed.
+Proof. exact (data_inside_lock current eq_refl). Qed.
 
 (* a failed open (refused or invalid options) leaves LOCK, the directories and the store files as they were, whatever
    options the refused opener asked for; and under every interleaving nobody but the lock owner changes anything *)
 Theorem C19_refused_open_touches_nothing : refused_open_touches_nothing_stmt current.
-Proof. exact (refused_open_touches_nothing_gen current eq_refl eq_refl). Qed.
+Proof. exact (refused_open_touches_nothing_gen current eq_refl eq_refl eq_refl). Qed.
 Theorem C19_no_foreign_modification : no_foreign_modification_stmt current.
-Proof. exact (no_foreign_modification_all current eq_refl eq_refl). Qed.
+Proof. exact (no_foreign_modification_all current eq_refl eq_refl eq_refl). Qed.
 Theorem C19_refused_open_same_layout_touches_nothing : refused_open_same_layout_touches_nothing_stmt current.
-Proof. exact (refused_open_same_layout_touches_nothing_gen current eq_refl). Qed.
+Proof. exact (refused_open_same_layout_touches_nothing_gen current eq_refl eq_refl). Qed.
 Theorem C19_refused_open_outside_known : refused_open_outside_known_stmt current.
-Proof. exact (refused_open_outside_known current). Qed.
+Proof. exact (refused_open_outside_known current eq_refl). Qed.
 
 (* regression record of F27: with the sub-directories created before the lock the property FAILS: opener 1
    holds a store without value log, opener 2 enables it, is refused — and vlog/ exists afterwards *)
@@ -66,9 +69,9 @@ Proof. exact refused_open_touches_nothing_fails_pinned. Qed.
    without waiting for any runtime to be shut down; the state "dropped, kept alive by the background tasks" is
    unreachable under every interleaving, so the end of a runtime changes nothing *)
 Theorem C19_detached_drop_reopens : detached_drop_reopens_stmt current.
-Proof. exact (detached_drop_reopens current eq_refl). Qed.
+Proof. exact (detached_drop_reopens current eq_refl eq_refl). Qed.
 Theorem C19_detached_drop_releases : detached_drop_releases_stmt current.
-Proof. exact (detached_drop_releases current eq_refl). Qed.
+Proof. exact (detached_drop_releases current eq_refl eq_refl). Qed.
 Theorem C19_never_detached : never_detached_stmt current.
 Proof. exact (never_detached current eq_refl). Qed.
 Theorem C19_runtime_gone_changes_nothing : runtime_gone_changes_nothing_stmt current.
@@ -88,10 +91,48 @@ Theorem C19_detached_drop_witness_before_repair :
   let s1 := run fixed_dirs (drop_detached_ops 1) s in
   let s2 := run fixed_dirs (open_ops 2 0 plain) s1 in
   let s3 := run fixed_dirs (open_ops 2 0 plain) (run fixed_dirs [ORuntimeGone 1] s2) in
-  is_live s 1 = true /\ pc_of s1 1 = Some PDetached /\ st_flock s1 = Some 1 /\
+  is_live s 1 = true /\ pc_of s1 1 = Some PDetached /\ lock_owner s1 = Some 1 /\
   st_op s2 2 = None /\ last (st_log s2) (EvGone 0) = EvRefused 2 /\ st_fs s2 = st_fs s /\
-  is_live s3 2 = true /\ st_flock s3 = Some 2.
+  is_live s3 2 = true /\ lock_owner s3 = Some 2.
 Proof. exact detached_drop_witness_fixed_dirs. Qed.
+
+(* checkpoint and restore of a LIVE store (operations of the holder that rewrite its directory), anywhere in any
+   interleaving: after a restore the store is live and still the owner of the lock on the inode called LOCK — the
+   very inode it opened and locked, same content —, the kernel's lock table is unchanged and a new opener is refused;
+   at every moment (also between the two halves of a restore) every opener that has opened LOCK has the inode the
+   name denotes now; the kernel never holds more than one lock, and it is on that inode; a checkpoint changes
+   neither LOCK nor the lock table nor any opener *)
+Theorem C19_restore_keeps_lock : restore_keeps_lock_stmt current.
+Proof. exact (restore_keeps_lock current eq_refl). Qed.
+Theorem C19_lock_name_stable : lock_name_stable_stmt current.
+Proof. exact (lock_name_stable current eq_refl). Qed.
+Theorem C19_single_lock : single_lock_stmt current.
+Proof. exact (single_lock current eq_refl). Qed.
+Theorem C19_checkpoint_keeps_lock : checkpoint_keeps_lock_stmt current.
+Proof. exact (checkpoint_keeps_lock current). Qed.
+
+(* regression record of the seeded change C19d (never a state of the sources): a restore that also removes the
+   regular files at the top level of the database directory unlinks LOCK; the holder keeps its flock on the now
+   nameless inode, the next opener creates a new LOCK, locks it, and TWO stores are live on one directory.  Mutual
+   exclusion fails for every variant without restore_keeps_lock_name; on the code as it is the same script ends
+   with opener 2 refused *)
+Theorem C19_restore_unlinks_two_live :
+  let s := run restore_unlinks (wit_ops ++ [OCommit 1; OCheckpoint 1; OCommit 1]) s0 in
+  let s1 := run restore_unlinks (restore_ops 1) s in
+  let s2 := run restore_unlinks (open_ops 2 1 plain) s1 in
+  is_live s 1 = true /\ lock_owner s = Some 1 /\ f_lock (st_fs s) = LPid 0 /\ f_lock_ino (st_fs s) = 1 /\ lock_identity s 1 = IdSame /\
+  is_live s1 1 = true /\ f_lock (st_fs s1) = LAbsent /\ lock_owner s1 = None /\ st_flock s1 = [(1, 1)] /\ lock_identity s1 1 = IdAbsent /\
+  is_live s2 1 = true /\ is_live s2 2 = true /\ in_critical s2 1 = true /\ in_critical s2 2 = true /\
+  lock_owner s2 = Some 2 /\ st_flock s2 = [(2, 2); (1, 1)] /\ f_lock (st_fs s2) = LPid 1 /\ f_lock_ino (st_fs s2) = 2 /\
+  lock_identity s2 1 = IdChanged /\ lock_identity s2 2 = IdSame /\
+  s2 = run restore_unlinks wit_two_live s0.
+Proof. exact restore_unlinks_two_live. Qed.
+Theorem C19_restore_unlinks_mutual_exclusion_fails :
+  ~ mutual_exclusion_stmt restore_unlinks /\ ~ restore_keeps_lock_stmt restore_unlinks.
+Proof. exact mutual_exclusion_fails_restore_unlinks. Qed.
+Theorem C19_mutual_exclusion_refuted_without_restore_keeping_lock :
+  forall v, restore_keeps_lock_name v = false -> ~ mutual_exclusion_stmt v.
+Proof. exact mutual_exclusion_refuted_without_keep. Qed.
 
 (* non-vacuity *)
 Example C19_release_reopens_example :
@@ -105,12 +146,38 @@ Example C19_detached_drop_reopens_example :
   let s := run current wit_ops s0 in
   let s1 := run current (drop_detached_ops 1) s in
   let s2 := run current (open_ops 2 0 plain) s1 in
-  is_live s 1 = true /\ pc_of s1 1 = None /\ st_flock s1 = None /\
-  is_live s2 2 = true /\ st_flock s2 = Some 2 /\
+  is_live s 1 = true /\ pc_of s1 1 = None /\ lock_owner s1 = None /\ st_flock s1 = [] /\
+  is_live s2 2 = true /\ lock_owner s2 = Some 2 /\
   st_log s1 = st_log s ++ [EvData 1 KShutdown; EvRelease 1; EvGone 1].
 Proof. exact detached_drop_witness_fixed_drop. Qed.
 Example C19_held_open_refused_example :
   let s := run current (open_ops 1 7 plain ++ open_ops 2 8 plain) s0 in
-  is_live s 1 = true /\ st_op s 2 = None /\ st_flock s = Some 1 /\
+  is_live s 1 = true /\ st_op s 2 = None /\ lock_owner s = Some 1 /\
   st_fs s = st_fs (run current (open_ops 1 7 plain) s0).
 Proof. vm_compute. repeat split; reflexivity. Qed.
+(* a concrete script with a restore: opener 1 (process 7) opens, commits, checkpoints, commits, restores itself — between
+   the two halves of the restore and after it opener 2 (process 8) is refused and LOCK is untouched; opener 1
+   commits again, closes; then opener 2 gets in *)
+Example C19_restore_example :
+  let s := run current (open_ops 1 7 plain ++ [OCommit 1; OCheckpoint 1; OCommit 1]) s0 in
+  let sm := run current ([ORestore 1] ++ open_ops 2 8 plain) s in
+  let s1 := run current [OStep 1] sm in
+  let s2 := run current (open_ops 2 8 plain ++ [OCommit 1]) s1 in
+  let s3 := run current (close_ops 1 ++ open_ops 2 8 plain) s2 in
+  is_live s 1 = true /\ lock_owner s = Some 1 /\ lock_identity s 1 = IdSame /\
+  pc_of sm 1 = Some PRestoring /\ st_op sm 2 = None /\ lock_owner sm = Some 1 /\ last (st_log sm) (EvGone 0) = EvRefused 2 /\
+  is_live s1 1 = true /\ lock_owner s1 = Some 1 /\ lock_identity s1 1 = IdSame /\ f_lock (st_fs s1) = LPid 7 /\
+  is_live s2 1 = true /\ st_op s2 2 = None /\ lock_owner s2 = Some 1 /\ st_flock s2 = st_flock s /\
+  f_lock (st_fs s2) = f_lock (st_fs s) /\ f_lock_ino (st_fs s2) = f_lock_ino (st_fs s) /\
+  is_live s3 2 = true /\ lock_owner s3 = Some 2 /\ f_lock (st_fs s3) = LPid 8 /\ f_lock_ino (st_fs s3) = f_lock_ino (st_fs s).
+Proof. exact restore_example_fixed_drop. Qed.
+Example C19_restore_same_script_on_the_sources :
+  let s := run current (wit_ops ++ [OCommit 1; OCheckpoint 1; OCommit 1]) s0 in
+  let s1 := run current (restore_ops 1) s in
+  let s2 := run current (open_ops 2 1 plain) s1 in
+  is_live s 1 = true /\ lock_owner s = Some 1 /\
+  is_live s1 1 = true /\ f_lock (st_fs s1) = LPid 0 /\ lock_owner s1 = Some 1 /\ st_flock s1 = [(1, 1)] /\ lock_identity s1 1 = IdSame /\
+  is_live s2 1 = true /\ st_op s2 2 = None /\ last (st_log s2) (EvGone 0) = EvRefused 2 /\
+  lock_owner s2 = Some 1 /\ st_flock s2 = [(1, 1)] /\ st_fs s2 = st_fs s1 /\
+  f_data (st_fs s1) = S (S (f_data (st_fs s))).
+Proof. exact restore_witness_fixed_drop. Qed.
